@@ -56,4 +56,19 @@ def check (input : Bytes) (evs : List Ev) : List String :=
   if embeds (saslResponses evs) ((Mon.linesLF input [] []).map candidates) then []
   else ["C09 a SASL mechanism received a response that is not the decoding of what the peer sent"]
 
+/-! ### C03: a session is created only by a greeting of the server's own flavour -/
+
+/-- how many times a verb occurs in the input at a place where a command can start (the beginning of an LF-delimited line, or
+    anywhere inside one — a command can follow a BDAT payload) -/
+def verbOccurrences (input : Bytes) (verb : String) : Nat :=
+  ((Mon.linesLF input [] []).map fun l => ((tailsOf l).filter (fun t => toUpper (t.take verb.length) == verb.b)).length).sum
+
+/-- every `NewSession` call answers one greeting line of the flavour the server speaks (LHLO on an LMTP server, EHLO or HELO on
+    an SMTP server): there are never more of them than such lines in the input.  (Lines that merely look like greetings —
+    inside message data, or refused — only raise the allowance.) -/
+def checkGreetFlavour (lmtp : Bool) (input : Bytes) (evs : List Ev) : List String :=
+  let ns := (evs.filter fun e => match e with | .ns .. => true | _ => false).length
+  let allowed := if lmtp then verbOccurrences input "LHLO" else verbOccurrences input "EHLO" + verbOccurrences input "HELO"
+  if ns ≤ allowed then [] else ["C03 a session was created by a greeting that is not of the server's flavour"]
+
 end SmtpV.Spec.AuthMon
